@@ -653,6 +653,15 @@ pub fn families(id: &str, quick: bool) -> Vec<Family> {
                         x.cap = 60_000;
                     }
                     f.extend(lp);
+                    // a costly low-priority callback that releases a burst of two, a frequent costly
+                    // one and a rare cheap one, in every priority order
+                    let mut b2 = indep_family(&format!("{nm} burst-of-two, WCET<=3 (state cap 15k)"), Some(bw), vec![(0, 3)],
+                        vec![(6u64, 0u64, 2u64), (15, 0, 1), (20, 20, 3), (16, 16, 2)].into_iter().map(|(t, j, c)| (ArrSpec::Sporadic { t, j }, c)).collect(),
+                        vec![SupplySpec::Dedicated]);
+                    for x in b2.iter_mut() {
+                        x.cap = 15_000;
+                    }
+                    f.extend(b2);
                     // short periods, unit costs: several polling points inside one response time,
                     // where the relative priority of polled callbacks decides the bound
                     f.extend(indep_family(&format!("{nm} T{{3,4,7}} J{{0,2}} C=1"), Some(bw), vec![(0, 3), (1, 2)],
@@ -665,6 +674,13 @@ pub fn families(id: &str, quick: bool) -> Vec<Family> {
                         x.cap = 150_000;
                     }
                     f.extend(lp);
+                    let mut b2 = indep_family(&format!("{nm} burst-of-two, WCET<=3 (state cap 60k)"), Some(bw), vec![(0, 3)],
+                        vec![(6u64, 0u64, 2u64), (5, 0, 2), (15, 0, 1), (12, 0, 1), (20, 20, 3), (16, 16, 2)].into_iter().map(|(t, j, c)| (ArrSpec::Sporadic { t, j }, c)).collect(),
+                        vec![SupplySpec::Dedicated]);
+                    for x in b2.iter_mut() {
+                        x.cap = 60_000;
+                    }
+                    f.extend(b2);
                     f.extend(indep_family(&format!("{nm} T{{3,4,7}} J{{0,2}} C=1"), Some(bw), vec![(0, 3), (1, 2)],
                         [3u64, 4, 7].iter().flat_map(|t| [0u64, 2].into_iter().map(move |j| (ArrSpec::Sporadic { t: *t, j }, 1u64))).collect(), sups.clone()));
                     f.extend(indep_family(&format!("{nm} T2..12 J<=3 C<=2"), Some(bw), vec![(1, 1), (0, 2), (2, 0)], grid(2, 12, 3, 2, true), sups.clone()));
